@@ -211,7 +211,10 @@ def check_round(root, o, what, classes, trigger=frozenset(),
         # recorded findings, each with its input-class predicate
         why = []
         for k, p, t in sc.problems:
-            if k in ('stale-entry', 'wrong-hash-set') and p in trigger:
+            if k in ('stale-entry', 'wrong-hash-set',
+                     'stale-manifest-ref') and p in trigger:
+                # (a Manifest listed twice by identical MANIFEST lines is
+                # the same case: the surviving line is never refreshed)
                 why.append(KNOWN_DEDUP)
             else:
                 why.append(explained_by_known(p, variants, dual))
